@@ -4,6 +4,7 @@
    Hand-written glue only: parsing, sparse <-> dense conversion, printing.  All mathematics is extracted code.
 
    commands:  mode fixed|unfixed     which label test the model uses (established by harness h_c03)
+              sbi                    MSBI: the model's StateBlockIndex
               hblk                   MHBLK b size entries...            model of HamiltonianPart::prepare
               energies               MGROUND, MESTATE, MEALL, MELABEL, MCOMP b ..., BCERT b resid unit
               ops                    per dumped OPMAT: MMAP, MOPD (model, dense), MOPS (model, pruned, sparse),
@@ -105,6 +106,9 @@ let handle (t : string array) =
     let es = List.init nnz (fun k -> (ios (a (8 + 4 * k)), ios (a (9 + 4 * k)), c (fos (a (10 + 4 * k))) (fos (a (11 + 4 * k))))) in
     opmats := (a 1, ios (a 2), ios (a 3), ios (a 4), ios (a 5), ios (a 6), es) :: !opmats
   | "mode" -> fixed := (a 1 = "fixed")
+  | "sbi" ->
+    let s = classif () in
+    Printf.printf "MSBI %s\n" (String.concat " " (List.map string_of_int s.sc_index))
   | "hblk" ->
     let s = classif () in
     for b = 0 to !nblocks - 1 do
